@@ -44,7 +44,10 @@ CLAIMED = {
             "incl. nested paths / exists / set with overwrite on-off, plain and nested to any depth / unset / statics) of "
             "the storage to put/del/get on the resolved location; read-your-writes across two clients naming one location "
             "differently; namespaced dotted access (client.a.b.key) = get/set of the absolute name, namespace cache = closure "
-            "of the registered keys (C06b)", P, BBN + "Known finding K5 shows through clear-on-unregister (value of a still used location)."),
+            "of the registered keys (C06b); HISTORY level (C06c): every operation changes the storage only at its resolved "
+            "target locations (C06_frame, all 19 entry points), so after a write and ANY history of operations not "
+            "targeting that location every reader resolving to it gets exactly that value (C06_history_read_your_writes), "
+            "after unset KeyError / not-exists (C06_history_unset_then_read)", P, BBN + "Known finding K5 shows through clear-on-unregister (value of a still used location)."),
     "C07": ("theorems for every client and state: a denied attribute write/read, get, exists, set (any nesting, any "
             "overwrite flag) returns AttributeError and leaves storage/metadata/clients/registry unchanged; reads never "
             "change the store; storage changes only with write access; unset through an unregistered key raises and "
@@ -98,8 +101,12 @@ CLAIMED = {
             "runs exactly when the leaf was not RUNNING + TRANSLATOR tie: SuccessEveryN.update, TickCounter.update/initialise are re-translated from the working tree to Lean on every run (harness/py2lean.py -> lean/PyTreesGen/C17.lean) and proved equal to the model's definitions for all arguments (C17_gen_* in Props/C17g.lean)", P, BT + "Integer clock."),
     "C18": ("theorems: XOR fold = parity (two options exact, even number fails, three-true counterexample K3), either_or / "
             "pick-up / oneshot shapes, flag publication and guards, memory keeps the choice, one-shot latch over every "
-            "history; the all-histories general-n promises are carried by the correspondence (library-built idiom vs "
-            "model-built idiom, shapes compared) and the Python oracle: PARTIAL", P,
+            "history; pick_up_where_you_left_off as a WHOLE, any number of tasks, any task subtrees that do not touch the "
+            "blackboard, every history of ticks / interrupts / pokes of other variables (C18b: C18_pickup_history - a task "
+            "whose flag is set is not entered, tasks are entered in order with all earlier flags set, flags are set only by a "
+            "task's SUCCESS, never cleared before the root's SUCCESS, all cleared and all slots SUCCESS on it; "
+            "C18_pickup_isPickUp: the constructor builds such an instance for every task list); either_or for n >= 3 "
+            "options over histories is carried by correspondence + oracle: PARTIAL", P,
             BT + "Known finding K3 (either_or with an odd number >= 3 of true conditions)."),
     "C19": ("theorems: for every node of every reachable state tip = None iff status INVALID, otherwise the tip is a "
             "non-INVALID node of that subtree; in sequence/selector trees over leaves the tip after a tick is the last "
